@@ -44,10 +44,12 @@ pub fn replay(a: &Args) {
 }
 
 fn random_list(r: &mut Rng, alphabet: usize, maxlen: usize, dupfree: bool) -> Vec<Necessity<i64>> {
-    let n = r.below(maxlen + 1);
+    // one list in eight has a boundary length (15, 16, 17, 31 .. 257) if the alphabet and the length bound allow it
+    let fitting: Vec<usize> = crate::gen::BOUNDARIES.iter().copied().filter(|b| *b <= maxlen && *b <= alphabet).collect();
+    let n = if !fitting.is_empty() && r.chance(1, 8) { *r.pick(&fitting) } else { r.below(maxlen + 1) };
     let mut out: Vec<Necessity<i64>> = Vec::new();
     let mut guard = 0;
-    while out.len() < n && guard < 10 * n + 10 {
+    while out.len() < n && guard < 40 * n + 10 {
         guard += 1;
         let v = r.below(alphabet) as i64;
         if dupfree && out.iter().any(|x| *x.inner_t() == v) {
